@@ -245,9 +245,11 @@ def gen_cases(tier):
         if kind == "construct":
             c["via"] = ["nested", "copy", "contract"][(i // 3) % 3]
             c["alts"] = alternatives(rng, vs, rng.randint(2, 3), mode)
-            if nv >= 2 and i % 4 == 1:
+            # the construction cases take turns through six families (f), independently of the gap mode (which has period 4)
+            f = (2 * (i // 6) + (1 if i % 6 == 5 else 0)) % 6
+            if nv >= 2 and f == 1:
                 c["alts"] = slabs(rng, vs, rng.randint(2, 3), mode)
-            if nv >= 2 and i % 12 in (6, 11):
+            if nv >= 2 and f == 2:
                 # alternatives over DIFFERENT variable sets: the first is cut off from the second only through a variable the second
                 # does not mention (x <= y, y <= h  against  x >= h + gap)
                 h, gap = rng.randint(-2, 2), {"disjoint": rng.randint(1, 2), "touching": 0, "overlapping": -rng.randint(1, 2), "mixed": rng.choice([1, 0, -1])}[mode]
@@ -255,14 +257,14 @@ def gen_cases(tier):
                 c["alts"] = [[({x: 1, y: -1}, 0), ({y: 1}, h)], [({x: -1}, -(h + gap))]]
                 if rng.random() < 0.5:
                     c["alts"].reverse()
-            if i % 12 == 5:
+            if f == 3:
                 # three or four alternatives, the only overlapping pair does NOT involve the first one listed
                 w = rng.randint(1, 2)
                 tail = [box_alt(rng, vs, 0, 2 + w), box_alt(rng, vs, 1 + w, 5 + w)]
                 rng.shuffle(tail)
                 c["alts"] = [box_alt(rng, vs, -12, -10)] + ([box_alt(rng, vs, 20, 22)] if rng.random() < 0.4 else []) + tail
                 c["via"] = "nested"
-            if i % 12 == 0:
+            if f == 4:
                 # three alternatives, only the first and the last overlap
                 w = rng.randint(1, 2)
                 c["alts"] = [box_alt(rng, vs, 0, 2 + w), box_alt(rng, vs, 10, 12), box_alt(rng, vs, 1 + w, 5 + w)]
